@@ -1,0 +1,27 @@
+//go:build verif
+
+// Contracts for package services/auth, read by /verif/engine (govc). Comments only.
+package auth
+
+// ---------------------------------------------------------------- service.go (C20)
+// "the nearest grant-carrying resource decides": a stored user's privilege table is converted
+// entry by entry into the table AuthorizeAction walks -- every stored privilege of every resource
+// gives exactly one converted privilege, in order, and "no privileges" stays an entry of its own
+// (it is what blocks /api/config and /api/write below a granted /api).
+//@ spec convPriv(p Privilege) auth.Privilege = ite(p == NoPrivileges, auth.NoPrivileges, ite(p == ReadPrivilege, auth.ReadPrivilege,
+//@     ite(p == WritePrivilege, auth.WritePrivilege, ite(p == DeletePrivilege, auth.DeletePrivilege, auth.AllPrivileges))))
+//@ func =github.com/influxdata/kapacitor/auth.NewUser
+//@   trusted
+//@   modifies nothing
+//@ func (*Service).convertToAuthUser
+//@   props C20
+//@   requires u.Privileges != nil
+//@   ensures [entry-for-entry] result1 == nil ==> called(NewUser) && forall k string :: has(u.Privileges, k) ==>
+//@       len(callarg(NewUser, 3)[k]) == len(u.Privileges[k])
+//@   loop 1
+//@     invariant privileges != nil && fresh(privileges)
+//@     invariant forall k string :: has(privileges, k) ==> seen(k)
+//@     invariant forall k string :: seen(k) ==> has(u.Privileges, k) && (len(u.Privileges[k]) > 0 ==> has(privileges, k)) && len(privileges[k]) == len(u.Privileges[k])
+//@   loop 2
+//@     invariant privileges != nil && 0 <= _i && _i <= len(ps) && len(privileges[r]) == _i
+//@     invariant forall k string :: k != r ==> has(privileges, k) == before(has(privileges, k)) && len(privileges[k]) == before(len(privileges[k]))
